@@ -214,6 +214,14 @@ def explore(obj, ops_table, hist, kind, train, is_eval_repeatable=True, refs=Non
                 break
         if err is None:
             live = [t for t in (res if isinstance(res, (tuple, list)) else [res]) if torch.is_tensor(t)]
+            # ... nor may a new result live in the storage of a tensor handed out by an earlier call (with identical values -- a sampler
+            # re-seeded alike -- the overwrite above would be invisible)
+            mine = {t.untyped_storage().data_ptr() for t in live if t.numel()}
+            argp = {t.untyped_storage().data_ptr() for t in mon if t.numel()}
+            for (pstep, pop, plive, _c) in held:
+                if any(t.numel() and t.untyped_storage().data_ptr() in mine and t.untyped_storage().data_ptr() not in argp for t in plive):
+                    out.append(("results:" + kind, "result shares its storage with the result of an earlier call", "%s: a returned tensor lives in the storage of a tensor returned by step %d (%s)" % (where, pstep, pop)))
+                    break
             held.append((step, op, live, [t.detach().clone() for t in live]))
         g2 = global_fingerprint()
         if g2 != gsnap:
